@@ -627,6 +627,16 @@ pub fn res_all() -> Vec<Scenario> {
         // the entry process itself owns a resource when it terminates
         mk("entry_owner", &format!(
             "f = {open},\n[f, 0, 0x0102] __file_write__", open = open)),
+        // the entry (session) process fails while it owns a resource: it cannot be resumed
+        mk("entry_owner_fails", &format!(
+            "f = {open},\n[f, 0, 0x0102] __file_write__,\n[1, 0] __integer_divide__", open = open)),
+        // a never-awaited child fails while it owns a resource
+        mk("child_unawaited_fails", &format!(
+            "c = @{{ f = {open}, [f, 0, 0x0102] __file_write__, [1, 0] __integer_divide__ }},\ng = @{{ 5 }},\n!g", open = open)),
+        // a never-awaited child owns a resource and is failed from outside: a process it awaits
+        // fails (on the same worker or another one)
+        mk("child_unawaited_fails_by_await", &format!(
+            "c = @{{ f = {open}, d = @{{ !'int =x, [1, x] __integer_divide__ }}, 0 d, !d }},\ng = @{{ 5 }},\n!g", open = open)),
         // handle sent in a message; the recipient uses it; the sender may no longer
         mk("send", &format!(
             "'rd = Read[\\File]\nr = @{{ !#'rd {{ =Read[f] => [f, 0, 2] __file_read__ }} }},\nf = {open},\n[f, 0, 0x0a0b] __file_write__,\nRead[f] r,\n!r", open = open)),
